@@ -74,6 +74,11 @@ def exotic_library(seed, idx):
         hdr.add(apigen.render_function(fname, 'void', params))
         src.add('/**\n * %s:\n%s * @func: (scope %s): a callback\n * @user_data: data\n */\n' % (
             fname, ' * @self: the object\n' if owner else '', rng.choice(['call', 'forever'])))
+    # ... and a record whose fields are of those (named) callback types: a field of a callback type that turns out
+    # not to be bindable must not stay introspectable
+    nlate = len([l for l in hdr.lines if l.startswith('typedef') and 'FooLate' in l])
+    hdr.add('typedef struct _FooLateUser FooLateUser;\nstruct _FooLateUser {\n' + ''.join(
+        '  FooLate%dFunc cb%d;\n' % (k, k) for k in range(nlate)) + '  GList *handlers;\n  gint x;\n};')
     return apigen.library(headers=[(hdr.filename, hdr.text())], sources=[(src.filename, src.text())], includes=['GObject-2.0', 'Gio-2.0', 'Dep-1.0'])
 
 
